@@ -98,6 +98,7 @@ var Keys = []Key{
 	{false, "10.0.0.1", "10.0.0.2", 1234, 5678, 6},
 	{false, "10.0.0.1", "10.0.0.2", 1234, 5679, 6},
 	{true, "2001:0:3238:dfe1:63::fefb", "2001:0:3238:dfe1:63::fefc", 1234, 5678, 17},
+	{false, "10.0.0.3", "10.0.0.2", 1, 2, 17},
 }
 
 func (k Key) FlowKey() intermediate.FlowKey {
